@@ -41,6 +41,7 @@ EXTENDS Integers, Sequences, FiniteSets
 CONSTANTS Proc,                  \* callers of stream(), strings
           CloneSeq,              \* names of the clones that may be made (GossipHandle::clone /
                                  \* subscribe), a sequence of strings, used in this order
+          MaxCancels,            \* how many stream() futures may be dropped half-way
           Defect_CheckThenClone,
           Defect_UnlockedJoin,
           Defect_SplitDrop
@@ -72,7 +73,8 @@ PcValues == {"idle",       \* stream() not called yet
              "atB",        \* api.rs:180 new guard created
              "waitReply",  \* api.rs:201 Subscribe sent, waiting for the reply
              "atC",        \* api.rs:209 reply received, before the insertion into senders
-             "returned"}   \* stream() returned Ok(handle)
+             "returned",   \* stream() returned Ok(handle)
+             "cancelled"}  \* the future of stream() was dropped before it returned
 
 TypeOK ==
     /\ pc \in [Proc -> PcValues]
@@ -190,9 +192,10 @@ ActorStep ==
        IF m.t = "Subscribe"
        THEN \* new session replaces sessions_by_topic[topic] (an existing one is not stopped),
             \* the reply resumes the caller up to api.rs:209
+            \* (if the caller is gone the reply is lost, manager.rs:263 ignores that)
             /\ session' = m.by
             /\ orphans' = IF session = None THEN orphans ELSE orphans \cup {session}
-            /\ pc' = [pc EXCEPT ![m.by] = "atC"]
+            /\ pc' = [pc EXCEPT ![m.by] = IF @ = "waitReply" THEN "atC" ELSE @]
             /\ hsess' = [hsess EXCEPT ![m.by] = m.by]
        ELSE \* Unsubscribe: stop the session registered for the topic, if any
             /\ session' = None
@@ -240,9 +243,27 @@ SendUnsub(h) ==
     /\ UNCHANGED <<pc, hctr, hsess, ctr, senders, readers, writer, session, orphans>>
 
 ---------------------------------------------------------------------------
+(* cancellation: the caller drops the future of stream() at an await point *)
+(* (beyond the listed statement).  Locks held by the future are released;  *)
+(* a guard it has created is dropped: counter 1 -> 0 and Unsubscribe, in   *)
+(* one step (the repaired drop).                                           *)
+
+CancelStream(s) ==
+    /\ pc[s] \in {"atA", "atW", "atB", "waitReply", "atC"}
+    /\ Cardinality({x \in Proc : pc[x] = "cancelled"}) < MaxCancels
+    /\ pc' = [pc EXCEPT ![s] = "cancelled"]
+    /\ readers' = readers \ {s}
+    /\ writer' = IF writer = s THEN None ELSE writer
+    /\ IF pc[s] \in {"atB", "waitReply", "atC"}
+       THEN /\ ctr' = [ctr EXCEPT ![s] = 0]
+            /\ mailbox' = Append(mailbox, [t |-> "Unsubscribe", by |-> s])
+       ELSE UNCHANGED <<ctr, mailbox>>
+    /\ UNCHANGED <<hst, hctr, hsess, senders, session, orphans>>
+
+---------------------------------------------------------------------------
 Next ==
     \/ \E s \in Proc : ReadSenders(s) \/ CloneGuard(s) \/ AcquireWrite(s)
-                       \/ CallSubscribe(s) \/ InsertSenders(s)
+                       \/ CallSubscribe(s) \/ InsertSenders(s) \/ CancelStream(s)
     \/ ActorStep
     \/ \E h \in HandleId : FetchSub(h) \/ SendUnsub(h)
     \/ \E h \in HandleId, k \in CloneIds : CloneHandle(h, k)
@@ -274,7 +295,7 @@ LeftOnlyAtZero == [][SendsUnsubscribe => {h \in HandleId : hst'[h] = "live"} = {
 \* ... and it *is* left then: when nothing is running and nothing is live, the manager holds no
 \* session for the topic and has not lost track of one.
 Quiescent ==
-    /\ \A s \in Proc : pc[s] \in {"idle", "returned"}
+    /\ \A s \in Proc : pc[s] \in {"idle", "returned", "cancelled"}
     /\ \A h \in HandleId : hst[h] \in {"none", "dropped"}
     /\ \A s \in Proc : pc[s] = "returned" => hst[s] = "dropped"
     /\ mailbox = <<>>
